@@ -128,8 +128,10 @@ func (c *ctx) pipeline(sch schema.Type, i int, raw any) {
 		if err != nil {
 			return // not accepted: nothing to round-trip
 		}
-		c.res.Evaluations++
-		c.res.Nontrivial++
+		if !mcrt.Verifying() {
+			c.res.Evaluations++
+			c.res.Nontrivial++
+		}
 		if err := sch.Validate(u); err != nil {
 			c.fail("Validate rejects the result of Unserialize ("+k+")", fmt.Sprintf("Unserialize -> %s; Validate -> %v", ukit.Show(u), err), i, raw)
 			return
